@@ -299,11 +299,16 @@ def _span_names(fn, l_name: str, r_name: str) -> bool:
     for n in walk_no_nested(fn.node):
         if isinstance(n, ast.Assign) and isinstance(n.targets[0], ast.Tuple) and [unparse(e) for e in n.targets[0].elts] == [l_name, r_name]:
             return unparse(n.value).endswith(".span")
+        tgt_, src_ = None, None
         if isinstance(n, ast.For):
-            for pos, e in enumerate(n.target.elts if isinstance(n.target, ast.Tuple) else []):
+            tgt_, src_ = n.target, n.iter
+        elif isinstance(n, ast.Assign) and isinstance(n.targets[0], ast.Tuple) and isinstance(n.value, ast.Subscript) and isinstance(n.value.value, ast.Name):
+            tgt_, src_ = n.targets[0], n.value.value          # `lineno, (l, r), repl = items[i]`
+        if tgt_ is not None:
+            for pos, e in enumerate(tgt_.elts if isinstance(tgt_, ast.Tuple) else []):
                 if isinstance(e, ast.Tuple) and [unparse(x) for x in e.elts] == [l_name, r_name]:
                     # find the tuples appended to the iterated list
-                    src = shapes.resolve_alias(fn, n.iter)
+                    src = shapes.resolve_alias(fn, src_)
                     base = None
                     for sub in ast.walk(src):
                         if isinstance(sub, ast.Name):
